@@ -272,6 +272,54 @@ Definition column_stack_dense (d : dense) : dense :=
      d_data := if d_fortran d then d_data d
                else tabulate (d_nr d) (d_nc d) true (den_dense d) |}.
 
+(* -------------------------------------------------------------- matmul *)
+(* matmul.pyx::_check_shape + matmul_csr(left, right, scale).  For output row
+   i the walk visits the stored entries (j, a) of the left row in storage
+   order and, for each, the stored entries (k, b) of right row j, adding a*b
+   into sums[k]; a column touched for the first time is pushed on the head of
+   a linked list, so the row is emitted in reverse first-touch order.  On
+   emission the sum is tidied, exact zeros are dropped and the value is
+   multiplied by `scale`.  (sums[] starts at 0: the first addition is 0 + a*b,
+   which acc_scatter writes as a*b.)  The early return for empty operands
+   gives the same all-empty rows as the walk. *)
+Definition mm_terms (rows_r : list crow) (ra : crow) : crow :=
+  flat_map (fun pa => map (fun pb => (fst pb, cmul (snd pa) (snd pb)))
+                          (nth (fst pa) rows_r [])) ra.
+Definition mm_emit (scale : C) (acc : crow) : crow :=
+  flat_map (fun p => let v := tidy (snd p) in if is0 v then [] else [(fst p, cmul scale v)])
+           (rev acc).
+Definition matmul_csr (l r : csr) (scale : C) : option csr :=
+  if negb (s_nc l =? s_nr r) then None
+  else Some {| s_nr := s_nr l; s_nc := s_nc r;
+               s_rows := map (fun ra => mm_emit scale (scatter_all (mm_terms (s_rows r) ra)))
+                             (s_rows l) |}.
+
+(* matmul_csr_dense_dense(left, right, scale, out): out := out + scale*l@r.
+   The Fortran path (_matmul_csr_vector, one output column at a time) forms the
+   row dot product  dot := a*b + dot  and then  out += scale*dot; the C path
+   adds (scale*a)*b to the output entry for each stored a.  The C path runs
+   only when `right` and `out` (if given) are both C-ordered; otherwise one of
+   them is reordered to Fortran.  The result has the order of `out`, or of
+   `right` when out is None. *)
+Definition mcd_entry (fpath : bool) (scale : C) (ra : crow) (g : nat -> C) (out0 : C) : C :=
+  if fpath
+  then cadd out0 (cmul scale (fold_left (fun dot p => cadd (cmul (snd p) (g (fst p))) dot) ra c0))
+  else fold_left (fun acc p => cadd acc (cmul (cmul scale (snd p)) (g (fst p)))) ra out0.
+Definition matmul_csr_dense (l : csr) (r : dense) (scale : C) (out : option dense)
+  : option dense :=
+  if negb (s_nc l =? d_nr r) then None
+  else if match out with
+          | Some o => negb ((d_nr o =? s_nr l) && (d_nc o =? d_nc r)) | None => false end
+  then None
+  else
+    let ford := match out with Some o => d_fortran o | None => d_fortran r end in
+    let fpath := d_fortran r || ford in
+    Some {| d_nr := s_nr l; d_nc := d_nc r; d_fortran := ford;
+            d_data := tabulate (s_nr l) (d_nc r) ford (fun i k =>
+               mcd_entry fpath scale (nth i (s_rows l) [])
+                         (fun j => den_dense r j k)
+                         (match out with Some o => den_dense o i k | None => c0 end)) |}.
+
 (* ---------------------------------------------------------------- kron *)
 (* kron.pyx::kron_csr: output row row_l*nrows_r + row_r holds, for every
    entry of the left row (in storage order), the whole right row shifted to
@@ -531,6 +579,8 @@ Definition G_trace_csr := trace_csr G g0 gadd.
 Definition G_trace_dense := trace_dense G g0 gadd.
 Definition G_add_csr := add_csr G g1 gadd gmul gis0 geqb (gtidy 1).
 Definition G_kron_csr := kron_csr G gmul.
+Definition G_matmul_csr := matmul_csr G gadd gmul gis0 (gtidy 1).
+Definition G_matmul_csr_dense := matmul_csr_dense G g0 gadd gmul.
 Definition G_reshape_csr := reshape_csr G.
 Definition G_reshape_dense := reshape_dense G g0.
 Definition G_column_stack_csr := column_stack_csr G.
